@@ -57,6 +57,10 @@ def cases(tier, seed):
         out.append(dict(t="chunks_all", depth=R.choice([1, 2]), seed=R.randrange(1 << 30), map=i, _timeout=900))
     for i in range(5 if q else 40):
         out.append(dict(t="chunks_all", depth=R.choice([1, 2, 2]), seed=R.randrange(1 << 30), map=i, aligned=i + 1, _timeout=900))
+    # three chunk columns at depth 3 (polar tiles are accepted by every chunk's filter but filled by few), the passes alternating
+    # between two PyramidIO objects / between serial and forked workers
+    for i in range(2 if q else 12):
+        out.append(dict(t="chunks_all", depth=3, seed=6 * R.randrange(1 << 27) + (1 if i % 2 == 0 else 3), map=1, handles=(i % 2 == 0), cols3=True, _timeout=900))
     for i in range(3 if q else 30):
         out.append(dict(t="fits_tiler", n=[2, 3, 2][i % 3], par=[1, 2, 1][i % 3], seed=R.randrange(1 << 30), _timeout=900))
     return out
@@ -498,12 +502,21 @@ def case_chunks_all(spec, workdir):
         H, W = [(64, 128), (24, 64), (40, 48), (100, 200), (36, 72)][spec["aligned"] % 5]
         cw = (W // 8) * R.choice([1, 3, 1, 3, 5])  # odd multiples: a boundary on lon = -3pi/4 or -pi/4
         ch = R.choice([H // 4, H // 2, H // 3, H])
+    if spec.get("cols3"):
+        cw, ch = -(-W // 3), H
     idmap = (np.arange(H * W).reshape(H, W) + 1).astype(np.int32)
+    if spec.get("cols3"):
+        # a FLOAT map with large undefined (NaN) regions: whole chunks define hardly anything, so most tiles their filters accept
+        # stay untouched by them (cell numbers stay exact in float32: H*W < 2**24)
+        idmap = idmap.astype(np.float32)
+        idmap[H // 5:, :cw] = np.nan
+        idmap[:H // 2, 2 * cw:] = np.nan
     fc = FakeChunked(idmap, cw, ch)
     ck = samplers.ChunkedPlateCarreeSampler(fc, planetary=True)
     D = spec["depth"]
     a = os.path.join(workdir, "chunks")
     pio = PyramidIO(a, default_format="npy")
+    pio_b = PyramidIO(a, default_format="npy")
     how = ["one_by_one", "pairs_first", "pairs_first_reversed", "samplers_first"][spec["seed"] % 4]
     from vlib import sched
 
@@ -526,7 +539,12 @@ def case_chunks_all(spec, workdir):
             finally:
                 sched.clear_failpoints()
             return
-        toast.sample_layer_filtered(pio, fl, sm, D, coordsys=CS.PLANETARY, parallel=1)
+        # in a third of the cases the passes through this ONE PyramidIO object alternate between serial and forked workers
+        par = [1, 2, 1, 2][io["k"] % 4] if spec["seed"] % 3 == 0 else 1
+        io["par"] = io.get("par", 0) + int(par > 1)
+        # ... and in another third the passes alternate between TWO PyramidIO objects on the same directory (two jobs)
+        h = pio if not (spec["seed"] % 3 == 1 or spec.get("handles")) or io["k"] % 2 else pio_b
+        toast.sample_layer_filtered(h, fl, sm, D, coordsys=CS.PLANETARY, parallel=par)
 
     if how == "one_by_one":
         for i in range(fc.n_chunks):
@@ -551,10 +569,23 @@ def case_chunks_all(spec, workdir):
         t, lon, lat = tile_and_grid("planetary", p)
         ref = g(lon, lat)
         n += 1
+        if idmap.dtype.kind == "f":
+            # undefined (NaN) map cells: a pixel is expected undefined exactly where the whole-map value is; a tile without any
+            # defined pixel need not exist
+            if got is None:
+                if not np.isnan(ref).all():
+                    probs.append(("chunks-hole", "tile %s absent after sampling all chunks although the map defines %d of its pixels" % (p, int((~np.isnan(ref)).sum()))))
+                continue
+            lost = np.isnan(got) & ~np.isnan(ref)
+            if lost.any():
+                probs.append(("chunks-hole", "tile %s: %d pixels undefined after sampling all chunks although the map defines them" % (p, int(lost.sum()))))
+            got = np.nan_to_num(got, nan=0.0).astype(np.int64)
+            ref = np.nan_to_num(ref, nan=0.0).astype(np.int64)
+            got = np.where(ref == 0, 0, got)
         if got is None:
             probs.append(("chunks-hole", "tile %s absent after sampling all chunks" % (p,)))
             continue
-        if (got == 0).any():
+        if idmap.dtype.kind != "f" and (got == 0).any():
             probs.append(("chunks-hole", "tile %s: %d pixels undefined after sampling all chunks" % (p, int((got == 0).sum()))))
         d = (got != ref) & (got != 0)
         if d.any():
